@@ -57,10 +57,16 @@ def evaluate(progs, want_build=True, want_run=True, keep=False, vet=False):
                 ur.pkg_status = st["status"] if st else None
                 if st:
                     for msg in st["errors"]:
-                        uid = C.unit_of_message(p, msg)
-                        if uid == u.uid or (uid is None and len(p.units) == 1):
+                        key = injector_at(root, p, msg) or C.unit_of_message(p, msg)
+                        mine = C.unit_key(u)
+                        if key == mine or (key is None and len(p.units) == 1):
                             ur.wire_errors.append(msg)
-                        elif uid is None:
+                        elif key is not None and key.endswith("?") and key[:-1] == str(u.uid) and not has_twin(p, u):
+                            ur.wire_errors.append(msg)
+                        elif key is not None and key.endswith("?") and key[:-1] == str(u.uid) and not getattr(u, "shadow", False):
+                            ur.ambiguous = True      # names the unit's types only: could belong to either twin
+                            ur.wire_errors.append(msg)
+                        elif key is None:
                             info["unattributed"].append(msg)
             gp = "%s/%s/%s/wire_gen.go" % (root, p.name, p.pkgmap["app"]["dir"])
             if os.path.exists(gp):
@@ -160,6 +166,41 @@ def evaluate(progs, want_build=True, want_run=True, keep=False, vet=False):
             rmtree(root)
 
 
+_LINES = {}
+
+
+def injector_at(root, p, msg):
+    """the injector whose template contains the position a diagnostic starts with (file wire.go of package app)"""
+    import re
+    f = "%s/%s/%s/wire.go" % (root, p.name, p.pkgmap["app"]["dir"])
+    m = re.match(r"^%s:(\d+):\d+: " % re.escape(f), msg)
+    if not m:
+        return None
+    if f not in _LINES:
+        spans = []
+        try:
+            for n, line in enumerate(open(f).read().split("\n"), 1):
+                mm = re.match(r"func Init(\d+b?)\(", line)
+                if mm:
+                    spans.append((n, mm.group(1)))
+        except OSError:
+            pass
+        _LINES[f] = spans
+    line = int(m.group(1))
+    best = None
+    for start, key in _LINES[f]:
+        if start <= line:
+            best = (start, key)
+    if best is None:
+        return None
+    # the template is at most a handful of lines long (doc comment excluded)
+    return best[1] if line - best[0] <= 4 else None
+
+
+def has_twin(p, u):
+    return any(getattr(x, "twin_of", None) is u or getattr(u, "twin_of", None) is x for x in p.units if x is not u)
+
+
 def gen_batch(n, opts, tag=""):
     rng = random.Random(seed() * 7919 + sum(ord(c) * (i + 1) for i, c in enumerate(tag)) % 1000)
     progs = [G.gen_prog(rng, "p%s%d" % (tag, k), opts) for k in range(n)]
@@ -168,7 +209,8 @@ def gen_batch(n, opts, tag=""):
             for u in p.units:
                 u.planted = None
                 if rng.random() < opts.get("plant_p", 0.6):
-                    kind = rng.choice(opts["plant"])
+                    kinds = [k for k in opts["plant"] if (k == "twinunused") == bool(getattr(u, "shadow", False))] or opts["plant"]
+                    kind = rng.choice(kinds)
                     note = G.plant(rng, u, kind)
                     if note:
                         u.planted = (kind, note)
